@@ -38,7 +38,7 @@ def gen(rng, index, tier):
         if "pickaperm" in config:
             sch = common.family_scheme(rng, "unifying")
     else:
-        sch = lib.gen_scheme(rng, family=rng.choice(["preset", "grid", "grid", "preset_mult", "zeroheavy", "fine", "fine", "cheap_ties"]))
+        sch = lib.gen_scheme(rng, family=rng.choice(["preset", "grid", "grid", "preset_mult", "zeroheavy", "fine", "fine", "cheap_ties", "large", "large"]))
     return {"kind": "run", "dataset": raw, "scheme": sch, "config": config, "amo": rng.random() < 0.4, "meta": meta}
 
 
